@@ -109,13 +109,16 @@ type dataFamily struct {
 	lastReadTime   *atomic.Int64
 	indicator      string
 	flushCondition sync.WaitGroup
-	timeRange      timeutil.TimeRange
-	familyTime     int64
-	ref            atomic.Int32
-	isFlushing     atomic.Bool
-	lastFlushTime  int64
-	interval       timeutil.Interval
-	mutex          sync.Mutex
+	// seqLock is held(read) from ValidateSequence until CommitSequence, flush holds it(write) when switches memory database,
+	// so the rows of a replica sequence and the sequence itself always belong to the same memory database.
+	seqLock       sync.RWMutex
+	timeRange     timeutil.TimeRange
+	familyTime    int64
+	ref           atomic.Int32
+	isFlushing    atomic.Bool
+	lastFlushTime int64
+	interval      timeutil.Interval
+	mutex         sync.Mutex
 }
 
 // newDataFamily creates a data family storage unit
@@ -268,10 +271,12 @@ func (f *dataFamily) Flush() error {
 		startTime := time.Now()
 
 		// add lock when switch memory database
+		f.seqLock.Lock()
 		f.mutex.Lock()
 		if f.immutableMemDB != nil || f.mutableMemDB == nil || f.mutableMemDB.NumOfSeries() == 0 {
 			// if immutable memory database not nil or no data need flush, return it
 			f.mutex.Unlock()
+			f.seqLock.Unlock()
 			return nil
 		}
 		waitingFlushMemDB := f.mutableMemDB
@@ -285,6 +290,7 @@ func (f *dataFamily) Flush() error {
 		}
 		f.immutableSeq = immutableSeq
 		f.mutex.Unlock()
+		f.seqLock.Unlock()
 
 		if err := f.flushMemoryDatabase(immutableSeq, waitingFlushMemDB); err != nil {
 			return err
@@ -552,17 +558,25 @@ func (f *dataFamily) WriteRows(rows []*metric.StorageRow) error {
 
 // ValidateSequence validates replica sequence if valid.
 func (f *dataFamily) ValidateSequence(leader int32, seq int64) bool {
+	// if sequence is valid, keep holding seqLock until CommitSequence(invoker must commit a valid sequence)
+	f.seqLock.RLock()
 	f.mutex.Lock()
 	defer f.mutex.Unlock()
 
 	if seqForLeader, ok := f.seq[leader]; ok {
-		return seq > seqForLeader.Load()
+		if seq > seqForLeader.Load() {
+			return true
+		}
+		f.seqLock.RUnlock()
+		return false
 	}
 	return true
 }
 
 // CommitSequence commits written sequence after write data.
 func (f *dataFamily) CommitSequence(leader int32, seq int64) {
+	// release seqLock which is held by ValidateSequence
+	defer f.seqLock.RUnlock()
 	f.mutex.Lock()
 	defer f.mutex.Unlock()
 
